@@ -347,6 +347,18 @@ def acquire_unknown_index(v):
                             f'{"a datagram is sent; " if out is not None else ""}{diff[:3]}', {'situation': situation}, signature={'component': 'acquire:unknown', 'situation': situation})
                 continue
             if situation == 'none':
+                # ... and nothing is left behind that would stand in the way later: the peer now sets up an IKE_SA, and a valid ACQUIRE re-uses THAT one
+                m0, cur0 = w.acquire('B', sport=0, dport=0), 'B'
+                while m0 is not None:
+                    nxt0 = w.peer_of(cur0)
+                    m0, cur0 = w.dispatch(nxt0, m0, cur0), nxt0
+                listed = [x.state.name for x in w.ctl['A'].ike_sas]
+                nxt = w.acquire('A', sport=0, dport=0)
+                if 'ESTABLISHED' not in listed:
+                    raise common.MachineryError(f'the peer-initiated IKE_SA did not come up: {listed}')
+                if nxt is None or W.dec_header(bytes(nxt))['xchg'] != W.CREATE_CHILD_SA:
+                    v.violation(f'after an ignored ACQUIRE (unknown index, no IKE_SA at the time) and an IKE_SA set up by the peer (IKE_SAs listed: {listed}) a valid ACQUIRE '
+                                'does not re-use the established IKE_SA', {'listed': listed}, signature={'component': 'acquire:unknown-after', 'what': 'zombie'})
                 continue
             if situation == 'busy':
                 res = w.dispatch('B', outstanding, 'A')
